@@ -1,0 +1,46 @@
+//go:build verif
+
+package pcache
+
+// Contracts for the deductive checks in /verif (comment-only; no code).
+
+// ---------------------------------------------------------------------------
+// C17: find results expand extended providers per the IPNI rules, for any record
+
+// Used at call sites only in C17 (its body belongs to C06/C07). Data-structure
+// invariant of the published maps: a non-nil entry carries its provider record.
+//@ func (*ProviderCache).getReadOnly
+//@   nobody
+//@   ensures result0 != nil ==> result0.provider != nil
+
+// md(list, i): the i-th metadata override, absent when the list is shorter.
+// skip / eff are the two IPNI rules, written from the property statement:
+// the provider's own entry is skipped where it adds no new metadata; the
+// looked-up metadata is substituted where an extended provider has none of
+// its own (absent OR empty).
+//@ spec func skipRule(xid int, pid int, xmd val, metadata val) bool = xid == pid && (len(xmd) == 0 || content(xmd) == content(metadata))
+
+// No relation between the provider and metadata list lengths is required:
+// records come from remote indexers.
+//@ func (*ProviderCache).GetResults
+//@   property C17
+//@   requires pc != nil
+//@   ensures result1 == nil && result0 != nil ==> len(result0) >= 1 && result0[0].Provider == &rpi.provider.AddrInfo && result0[0].Metadata == metadata && result0[0].ContextID == ctxID
+//@   loop 1: invariant len(results) >= 1 && results[0].Provider == &rpi.provider.AddrInfo && results[0].Metadata == metadata && results[0].ContextID == ctxID
+//@   loop 2: invariant len(results) >= 1 && results[0].Provider == &rpi.provider.AddrInfo && results[0].Metadata == metadata && results[0].ContextID == ctxID
+//@   loop 2: invariant !override
+//@   loop 1: iteration ghost did := false
+//@   loop 2: iteration ghost did := false
+//@   at call append#2: ghost did := true
+//@   at call append#3: ghost did := true
+//@   at call append#2: assert arg1[0].ContextID == ctxID && isfresh(arg1[0].Provider)
+//@   at call append#2: assert arg1[0].Metadata == ite(len(elemOrZero(ctxExtended.metadatas, rangeindex)) == 0, metadata, elemOrZero(ctxExtended.metadatas, rangeindex))
+//@   at call append#3: assert arg1[0].ContextID == ctxID && isfresh(arg1[0].Provider)
+//@   at call append#3: assert arg1[0].Metadata == ite(len(elemOrZero(extended.Metadatas, rangeindex)) == 0, metadata, elemOrZero(extended.Metadatas, rangeindex))
+//@   loop 1: iteration ensures did <==> !skipRule(str(ctxExtended.providers[rangeindex].ID), str(pid), elemOrZero(ctxExtended.metadatas, rangeindex), metadata)
+//@   loop 2: iteration ensures did <==> !skipRule(str(extended.Providers[rangeindex].ID), str(pid), elemOrZero(extended.Metadatas, rangeindex), metadata)
+
+//@ func apiToCacheInfo
+//@   property C17
+//@   ensures provider == nil <==> result == nil
+//@   ensures result != nil ==> result.provider == provider
